@@ -5,8 +5,13 @@
 // focused sub-grammars of ECMA-262 (ASI boundaries, regexp-vs-division,
 // contextual keywords as identifiers, cover grammars, Annex B labelled
 // functions and HTML-like comments, numeric separators, escapes in
-// identifier names, class elements).  TLC enumerates every terminal string of
-// at most MaxLen tokens together with the productions used.
+// identifier names, class elements) and three structural sub-grammars
+// (forhead: for / for-in / for-of / for-await heads with `in`-carrying and
+// closure leaves in every clause; inop: the [In]-parameterised productions
+// through every forwarding / resetting operator; scopes: every scope-opening
+// statement kind x scope-bearing expressions in every clause position, two at
+// a time).  TLC enumerates every terminal string of at most MaxLen tokens and
+// derivation weight <= MaxCost together with the productions used.
 // Binding (R): for each string and goal (script / module) V8 (compile only)
 // and acorn decide validity of the INPUT; esbuild must accept what both
 // accept; whatever esbuild accepts must compile in V8 and parse in acorn, and
@@ -36,6 +41,8 @@ type gramCase struct {
 	Toks      []string `json:"toks"`
 	Prods     []string `json:"prods"`
 	Rare      []string `json:"rare"`
+	Heavy     []string `json:"heavy"` // weighted productions used (scope-bearing / in-carrying alternatives, operators)
+	Cost      int      `json:"cost"`  // summed weight of the derivation
 	AllProds  []string `json:"allprods"`
 	RareProds []string `json:"rareprods"`
 }
@@ -147,7 +154,68 @@ func join(toks []string) string {
 	return sb.String()
 }
 
-var grammars = []string{"asi", "regexdiv", "idents", "cover", "annexb", "numsep", "escapes", "class"}
+// longest TLC runs first (the JVMs run side by side)
+var grammars = []string{"forhead", "asi", "cover", "class", "scopes", "inop", "idents", "regexdiv", "annexb", "numsep", "escapes"}
+
+// structural grammars: production names of the weighted alternatives become key fields ("p:<name>": true) so that a
+// known finding can be identified by the construct and its clause position instead of by one string
+var structural = map[string]bool{"forhead": true, "inop": true, "scopes": true}
+
+// quick tier: seeded sub-sampling.  Every string of a small grammar and every string whose derivation weight is below the
+// grammar's bound is evaluated; of the others (all strings of the three big lexical grammars, the maximum-weight strings of
+// the structural grammars: two heavy alternatives / depth-2 nestings) a seeded fraction, always keeping at least one string
+// per production.  The thorough tier evaluates everything.
+var quickRate = map[string]float64{"asi": 0.3, "cover": 0.3, "class": 0.3, "forhead": 0.3, "scopes": 0.5, "inop": 0.6}
+
+func subsample(r *core.Run, byText map[string]*gramCase, order []string) []string {
+	maxCost := map[string]int{}
+	for _, k := range order {
+		c := byText[k]
+		if c.Cost > maxCost[c.Grammar] {
+			maxCost[c.Grammar] = c.Cost
+		}
+	}
+	perm := r.Rand.Perm(len(order))
+	covered := map[string]bool{}
+	keep := make([]bool, len(order))
+	for _, i := range perm {
+		c := byText[order[i]]
+		rate, sampled := quickRate[c.Grammar]
+		take := !sampled || c.Cost < maxCost[c.Grammar] || r.Rand.Float64() < rate
+		for _, pn := range c.Prods {
+			if !covered[c.Grammar+":"+pn] {
+				take = true
+			}
+		}
+		if take {
+			keep[i] = true
+			for _, pn := range c.Prods {
+				covered[c.Grammar+":"+pn] = true
+			}
+		}
+	}
+	var out []string
+	for i, k := range order {
+		if keep[i] {
+			out = append(out, k)
+		}
+	}
+	return out
+}
+
+func isASCII(s string) bool {
+	for i := 0; i < len(s); i++ {
+		if s[i] >= 0x80 {
+			return false
+		}
+	}
+	return true
+}
+
+func isPanic(msg string) bool {
+	return strings.Contains(msg, "panic:") || strings.Contains(msg, "Internal error") || strings.Contains(msg, "Expected scope") ||
+		strings.Contains(msg, "runtime error")
+}
 
 // Forms esbuild deliberately does not support although V8 accepts them (analysed at first occurrence; see
 // the report).  A string is exempted from the "valid input is accepted" clause only if the esbuild error
@@ -156,6 +224,7 @@ var deliberate = []struct{ errSub, why string }{}
 
 type outRef struct {
 	cfg    int
+	cf     config
 	in     int // parser item: input validity for the goal
 	err    string
 	code   string
@@ -188,11 +257,13 @@ func Run(r *core.Run) {
 		evalStrings(r, map[string]*gramCase{"k": &c}, []string{"k"}, []config{rec.Detail.Config}, nil)
 		return
 	}
-	r.Set("rule", "strings are ALL terminal strings (<= 20 tokens) derivable in the focused sub-grammars of spec/JsGrammar.tla, enumerated exhaustively by TLC (state = sentential form, action = production at the leftmost non-terminal); a string is non-trivial iff its derivation uses >= 1 production marked rare (line terminator in an ASI-sensitive place, regexp/division ambiguity, contextual keyword as identifier, cover-grammar refinement, Annex B form, separator/escape form, class-element modifier/name combination); distinct = distinct token sequences")
+	r.Set("rule", "strings are the terminal strings derivable in the eleven sub-grammars of spec/JsGrammar.tla (<= MaxLen tokens, derivation weight <= MaxCost), enumerated exhaustively by TLC (state = sentential form + weight, action = production at the leftmost non-terminal); the thorough tier evaluates every string, the quick tier a VERIF_SEED-determined sub-sample (all strings of the small grammars and all strings below the weight bound, a fixed fraction of the rest, at least one string per production); a string is non-trivial iff its derivation uses >= 1 production marked rare (line terminator in an ASI-sensitive place, regexp/division ambiguity, contextual keyword as identifier, cover-grammar refinement, Annex B form, separator/escape form, class-element modifier/name combination, an `in`-carrying or scope-bearing alternative in a clause position, an [In]-forwarding/resetting operator, a scope-opening statement kind); distinct = distinct token sequences")
 	r.Assume("validity of an input for a goal = V8 (vm.Script / vm.SourceTextModule, compile only) AND acorn 8.16 (ecmaVersion latest) both accept it; strings on which they disagree carry no acceptance requirement")
 	r.Assume("script goal = no output format; module goal = format esm; clause 'output is valid for the requested kind' is applied to inputs that are valid for that goal; for inputs that are NOT valid for the goal but that esbuild accepts, the output must be valid for at least one goal")
 	r.Assume("not generated (analysed at first occurrence): `await` used as an identifier at the top level of a file (esbuild parses every file as a potential ES module with top-level await and rejects it deliberately: js_parser.go 'Allow top-level await'); the `accessor` class-member modifier (esbuild implements the auto-accessor proposal, which Node 20's V8 and acorn 8.16 do not know, so there is no reference); top-level `this` under format=esm (esbuild treats the file as CommonJS and wraps it, a format conversion outside this property)")
 	r.Assume("mutations of the repository's own test inputs are C16's subject and are not generated here")
+	r.Assume("the structural grammars (forhead, inop, scopes) derive pure-ASCII programs, on which the charset option cannot act: they run under {pretty, minify-whitespace} x charset=ascii for each goal; the strings with an escaped astral identifier run under every selected configuration")
+	r.Assume("programs are compiled, not executed: the console trace of input vs output is not compared (C02/C15 execute programs)")
 
 	var cfgs []config
 	for _, g := range []string{"script", "module"} {
@@ -217,11 +288,22 @@ func Run(r *core.Run) {
 	var mu sync.Mutex
 	var cases []gramCase
 	allProds := map[string]map[string]bool{}
-	core.Parallel(len(grammars), 4, func(i int) {
+	grammars := grammars
+	if only := os.Getenv("VERIF_C13_ONLY"); only != "" { // development aid: restrict the run to some sub-grammars
+		grammars = strings.Split(only, ",")
+		r.Assume("DEVELOPMENT RUN restricted to the sub-grammars " + only)
+	}
+	jvm := "-XX:TieredStopAtLevel=1 -XX:ParallelGCThreads=2 -XX:CICompilerCount=1"
+	if r.Thorough() {
+		jvm = "-XX:ParallelGCThreads=2"
+	}
+	core.Parallel(len(grammars), 8, func(i int) {
 		g := grammars[i]
 		var local []gramCase
 		tlcrun.MustHold(r, tlcrun.Options{
-			Module: "JsGrammar", Config: fmt.Sprintf("JsGrammar.%s.%s.cfg", g, tier), Workers: 2, TimeoutSec: r.Pick(1800, 3600), HeapGB: 4,
+			Module: "JsGrammar", Config: fmt.Sprintf("JsGrammar.%s.%s.cfg", g, tier), Workers: 1, TimeoutSec: r.Pick(1800, 3600), HeapGB: 4,
+			// many short JVMs side by side: C1 only and two GC threads each (measured: 76 s -> 22 s CPU for forhead.quick)
+			JavaOpts: jvm,
 			OnCase: func(raw []byte) {
 				var c gramCase
 				if err := json.Unmarshal(raw, &c); err != nil {
@@ -254,6 +336,7 @@ func Run(r *core.Run) {
 		if old, ok := byText[k]; ok {
 			old.Prods = append(old.Prods, c.Prods...)
 			old.Rare = append(old.Rare, c.Rare...)
+			old.Heavy = append(old.Heavy, c.Heavy...)
 			continue
 		}
 		byText[k] = c
@@ -266,6 +349,16 @@ func Run(r *core.Run) {
 		return
 	}
 
+	derived := map[string]int{}
+	for _, k := range order {
+		derived[byText[k].Grammar]++
+	}
+	r.Set("strings_derived_per_grammar", derived)
+	if !r.Thorough() {
+		order = subsample(r, byText, order)
+		r.Logf("quick tier: seeded sub-sample of %d strings", len(order))
+	}
+
 	evalStrings(r, byText, order, cfgs, allProds)
 }
 
@@ -276,8 +369,22 @@ func evalStrings(r *core.Run, byText map[string]*gramCase, order []string, cfgs 
 	core.Parallel(len(order), 8, func(i int) {
 		c := byText[order[i]]
 		ev := strEval{c: c, src: join(c.Toks)}
+		// the structural grammars derive pure-ASCII programs (except the marked astral-identifier forms): the charset
+		// setting cannot act on them, so they run under {pretty, minify-whitespace} x charset=ascii for each goal
+		asciiStruct := structural[c.Grammar] && !strings.Contains(ev.src, "\\u") && isASCII(ev.src) && len(cfgs) > 1
+		seen := map[string]bool{}
 		for ci, cf := range cfgs {
-			o := outRef{cfg: ci, out: -1, outAlt: -1}
+			if asciiStruct {
+				if cf.Charset == "utf8" {
+					cf.Charset = "ascii"
+					cf.MinifyWS = true
+				}
+				if seen[cf.Name()] {
+					continue
+				}
+				seen[cf.Name()] = true
+			}
+			o := outRef{cfg: ci, cf: cf, out: -1, outAlt: -1}
 			o.in = p.add(ev.src, cf.Goal)
 			res := api.Transform(ev.src, cf.options())
 			if len(res.Errors) > 0 {
@@ -326,13 +433,18 @@ func evalStrings(r *core.Run, byText map[string]*gramCase, order []string, cfgs 
 				"valid_script": p.valid(ev.outs[0].in), "esbuild_error": ev.outs[0].err, "output": ev.outs[0].code})
 		}
 		for _, o := range ev.outs {
-			cf := cfgs[o.cfg]
+			cf := o.cf
 			in := &p.res[o.in]
 			inValid := in.Acorn && in.V8
 			if in.Acorn != in.V8 {
 				nDisagree++
 			}
 			key := map[string]interface{}{"grammar": c.Grammar, "input": ev.src, "config": cf.Name(), "error": "", "output_error": ""}
+			if structural[c.Grammar] {
+				for _, pn := range c.Prods {
+					key["p:"+pn] = true
+				}
+			}
 			detail := map[string]interface{}{"case": c, "input": ev.src, "config": cf, "input_valid_acorn": in.Acorn, "input_valid_v8": in.V8,
 				"acorn_error": in.AErr, "v8_error": in.VErr}
 			if inValid {
@@ -342,6 +454,9 @@ func evalStrings(r *core.Run, byText map[string]*gramCase, order []string, cfgs 
 			if o.err != "" {
 				if !inValid {
 					nRejectedInvalid++
+					if isPanic(o.err) {
+						r.Inc("panics_on_inputs_the_references_reject", 1)
+					}
 					continue
 				}
 				exempt := false
@@ -357,7 +472,14 @@ func evalStrings(r *core.Run, byText map[string]*gramCase, order []string, cfgs 
 				key["check"] = "accepts-valid-input"
 				key["error"] = o.err
 				detail["esbuild_error"] = o.err
-				r.Violation(key, fmt.Sprintf("esbuild rejects a program that V8 and acorn accept as %s: %q: %s", cf.Goal, ev.src, o.err), detail)
+				how := "rejects"
+				if isPanic(o.err) {
+					// an internal failure (scope stack mismatch between the parse and visit passes, nil dereference ...) reported as a
+					// build error: a rejection of valid input; the message carries addresses, so the key gets a stable text
+					key["error"] = "internal error (panic)"
+					how = "fails with an internal error on"
+				}
+				r.Violation(key, fmt.Sprintf("esbuild %s a program that V8 and acorn accept as %s: %q: %s", how, cf.Goal, ev.src, o.err), detail)
 				continue
 			}
 			nAccepted++
